@@ -11,9 +11,17 @@ NonexpansiveOperator with v), then the real Function.set_class_constraints(), an
 compared inside Coq with  dump_genout (run_plan plan_<Class> state)  on the same state.
 
 A second family of cases calls the two generic generators of function.py directly with arbitrary pairs of
-lists (different lists, shared and non-shared triplet objects, empty lists, both symmetry flags)."""
+lists (different lists, shared and non-shared triplet objects, empty lists, both symmetry flags).
+
+Every case is rebuilt deterministically from (kind, class, case_seed, forced placement): that triple is the
+replayable description of a case.
+
+The module also holds the hand-written REFERENCE conditions of the 24 classes (mirror of coq/Spec/Reference.v,
+typed from the docstrings / papers, independent of the PEPit formulas) and exact-rational evaluators, used by
+the C04 / C17 property checks on the implementation."""
 import random
 import time
+from fractions import Fraction
 
 from . import classes as K
 from .common import run_cases, model_output
@@ -35,8 +43,13 @@ RAW_FORMULAS = [
 ]
 
 
-def class_case(rng, name, **kw):
-    """one case through the class's own add_class_constraints"""
+# ------------------------------------------------------------------------------------------ cases
+def class_case(case_seed, name, forced=None):
+    """one case through the class's own add_class_constraints; returns (coq input, dump, meta, func)"""
+    rng = random.Random(case_seed)
+    kw = {}
+    if forced is not None:
+        kw = dict(stationary_at=forced, nsamples=rng.choice([2, 3, 4]))
     func, ctx = K.build_function(rng, name, **kw)
     resolve = rng.random() < 0.2
     if resolve:
@@ -45,8 +58,8 @@ def class_case(rng, name, **kw):
     state = K.coq_fstate(func, oid)
     func.set_class_constraints()
     dump = K.py_genout(func, oid)
-    meta = dict(kind="class", cls=name, params=ctx["params"], ops=ctx["kinds"], named_function=ctx["named"],
-                stationary_at=ctx["stationary_at"], resolve=resolve,
+    meta = dict(kind="class", cls=name, case_seed=case_seed, forced=forced, params=ctx["params"], ops=ctx["kinds"],
+                named_function=ctx["named"], stationary_at=ctx["stationary_at"], resolve=resolve,
                 n_points=len(func.list_of_points), n_stationary=len(func.list_of_stationary_points),
                 n_constraints=len(func.list_of_class_constraints), n_lmi=len(func.list_of_class_psd),
                 n_tables=len(func.tables_of_constraints),
@@ -54,9 +67,10 @@ def class_case(rng, name, **kw):
     return ("(plan_%s, %s)" % (name, state), dump, meta, func)
 
 
-def raw_case(rng):
+def raw_case(case_seed):
     """one case through function.py's generic generators, called directly with two arbitrary lists"""
-    from PEPit import PEP, Point, Expression
+    from PEPit import PEP, Point
+    rng = random.Random(case_seed)
     cls, method, arity = rng.choice(RAW_FORMULAS)
     pep = PEP()
     params = K.draw_params(rng, cls)
@@ -89,7 +103,7 @@ def raw_case(rng):
     sym = rng.random() < 0.5
     cname = rng.choice(["cond", "convexity", "c_1"])
     oid = K.ObjIds()
-    par = {K.PARAMS[k]: (K.Fraction(0) if v == K.INF else K.T.to_fraction(v)) for k, v in params.items()}
+    par = {K.PARAMS[k]: (Fraction(0) if v == K.INF else K.T.to_fraction(v)) for k, v in params.items()}
     inf = {K.PARAMS[k]: True for k, v in params.items() if v == K.INF}
     fname = "f_%s_%s" % (cls, method[4:])
     if arity == 6:
@@ -104,58 +118,61 @@ def raw_case(rng):
         func.add_constraints_from_one_list_of_points(list_of_points=l1, constraint_name=cname,
                                                      set_class_constraint_i=getattr(func, method))
     dump = K.py_genout(func, oid, points=l1, stat=[])
-    meta = dict(kind="raw", cls=cls, method=method, symmetry=sym, same_list=(l2 is l1), n1=len(l1), n2=len(l2),
+    meta = dict(kind="raw", cls=cls, case_seed=case_seed, method=method, arity=arity, symmetry=sym,
+                same_list=(l2 is l1), n1=len(l1), n2=len(l2), cname=cname,
                 n_constraints=len(func.list_of_class_constraints),
                 names=[c.get_name() for c in func.list_of_class_constraints[:3]])
+    func._verif_raw = dict(l1=l1, l2=l2 if arity == 6 else None, sym=sym, cname=cname)
     return ("(%s, %s)" % (plan, state), dump, meta, func)
 
 
-def gen_cases(rng, n_class, n_raw, classes=None, on_case=None):
-    """returns (cases, metas).  on_case(meta, func) may inspect the real objects of each case (C04/C17 use it
-    to check their property directly on the implementation) and return a problem dict or None."""
+def rebuild(meta):
+    """rebuild a case from its replayable description"""
+    if meta["kind"] == "raw":
+        return raw_case(meta["case_seed"])
+    return class_case(meta["case_seed"], meta["cls"], meta.get("forced"))
+
+
+def case_list(seed, n_class, n_raw, classes=None):
+    """the replayable descriptions of the cases of a run"""
     classes = classes or K.ALL_CLASSES
-    cases, metas, problems = [], [], []
-    order = []
-    per = max(1, n_class // len(classes))
-    for name in classes:
-        # the four stationary placements first, then random
-        forced = ["first", "middle", "last", "none"]
-        for k in range(per):
-            order.append((name, forced[k] if k < len(forced) else None))
-    for name, where in order:
-        kw = {}
-        if where is not None:
-            kw = dict(stationary_at=where, nsamples=rng.choice([2, 3, 4]))
-        inp, dump, meta, func = class_case(rng, name, **kw)
-        cases.append((inp, dump))
-        metas.append(meta)
-        if on_case:
-            pr = on_case(meta, func)
-            if pr:
-                problems.append(pr)
-    for _ in range(n_raw):
-        inp, dump, meta, func = raw_case(rng)
-        cases.append((inp, dump))
-        metas.append(meta)
-        if on_case:
-            pr = on_case(meta, func)
-            if pr:
-                problems.append(pr)
-    return cases, metas, problems
-
-
-def run_stream(tag, tier, seed, on_case=None, classes=None):
-    """the stream dict of BUILDING.md (name, evaluations, distinct_nontrivial, rule, samples, mismatches, ...)"""
     rng = random.Random(seed * 104729 + 417)
-    n_class, n_raw = (720, 160) if tier == "quick" else (7200, 1600)
+    out = []
+    per = max(1, n_class // len(classes))
+    forced = ["first", "middle", "last", "none"]
+    for name in classes:
+        for k in range(per):
+            out.append(dict(kind="class", cls=name, case_seed=rng.getrandbits(48),
+                            forced=forced[k] if k < len(forced) else None))
+    for _ in range(n_raw):
+        out.append(dict(kind="raw", cls=None, case_seed=rng.getrandbits(48)))
+    return out
+
+
+def run_stream(tag, tier, seed, on_case=None, classes=None, sizes=None):
+    """the stream dict of BUILDING.md (name, evaluations, distinct_nontrivial, rule, samples, mismatches, ...).
+    on_case(meta, func) may inspect the real objects of each case (C04 / C17 check their property directly on
+    the implementation there) and returns a list of problem dicts."""
+    n_class, n_raw = sizes or ((720, 160) if tier == "quick" else (7200, 1600))
     t0 = time.time()
-    cases, metas, problems = gen_cases(rng, n_class, n_raw, classes=classes, on_case=on_case)
+    cases, metas, problems = [], [], []
+    for desc in case_list(seed, n_class, n_raw, classes):
+        inp, dump, meta, func = rebuild(desc)
+        cases.append((inp, dump))
+        metas.append(meta)
+        if on_case:
+            for pr in on_case(meta, func) or []:
+                problems.append(dict(case=dict(kind=meta["kind"], cls=meta["cls"], case_seed=meta["case_seed"],
+                                               forced=meta.get("forced")), **pr))
     t1 = time.time()
-    bad = run_cases(tag, IMPORTS, RUN, cases, shard=60, input_type=INPUT_TYPE)
+    bad = run_cases(tag, IMPORTS, RUN, cases, shard=40, input_type=INPUT_TYPE)
     t2 = time.time()
     mism = []
     for i in bad[:3]:
-        mism.append(dict(kind="model-differs", case=metas[i], implementation=cases[i][1],
+        mism.append(dict(kind="model-differs",
+                         case=dict(kind=metas[i]["kind"], cls=metas[i]["cls"], case_seed=metas[i]["case_seed"],
+                                   forced=metas[i].get("forced")),
+                         meta=metas[i], implementation=cases[i][1],
                          model=model_output(IMPORTS, RUN, cases[i][0])[:3000]))
     distinct = set()
     hist_cls, hist_ops, hist_n = {}, {}, {}
@@ -176,3 +193,404 @@ def run_stream(tag, tier, seed, on_case=None, classes=None):
                 distribution=dict(per_class=hist_cls, ops=hist_ops,
                                   n_constraints={str(k): v for k, v in sorted(hist_n.items())},
                                   seconds_impl=round(t1 - t0, 1), seconds_model=round(t2 - t1, 1)))
+
+
+def model_agrees(desc):
+    """one case through implementation and model; True iff the dumps agree"""
+    inp, dump, meta, func = rebuild(desc)
+    return not run_cases("cg_replay", IMPORTS, RUN, [(inp, dump)], input_type=INPUT_TYPE)
+
+
+# ------------------------------------------------------------------------------------------ exact evaluation
+class Valuation(object):
+    """random rational values of the leaf points (vectors of Q^3) and leaf expressions, drawn on demand"""
+    def __init__(self, rng, dim=3):
+        self.rng, self.dim = rng, dim
+        self.P, self.X = {}, {}
+
+    def leaf_point(self, p):
+        k = id(p)
+        if k not in self.P:
+            self.P[k] = [Fraction(self.rng.randint(-6, 6), self.rng.choice([1, 2, 3])) for _ in range(self.dim)]
+        return self.P[k]
+
+    def leaf_expr(self, e):
+        k = id(e)
+        if k not in self.X:
+            self.X[k] = Fraction(self.rng.randint(-9, 9), self.rng.choice([1, 2, 5]))
+        return self.X[k]
+
+    def point(self, p):
+        acc = [Fraction(0)] * self.dim
+        for leaf, w in p.decomposition_dict.items():
+            v = self.leaf_point(leaf)
+            w = K.T.to_fraction(w)
+            acc = [a + w * b for a, b in zip(acc, v)]
+        return acc
+
+    def expr(self, e):
+        acc = Fraction(0)
+        for key, w in e.decomposition_dict.items():
+            w = K.T.to_fraction(w)
+            if isinstance(key, tuple):
+                acc += w * dot(self.leaf_point(key[0]), self.leaf_point(key[1]))
+            elif type(key).__name__ == "Expression":
+                acc += w * self.leaf_expr(key)
+            else:
+                acc += w
+        return acc
+
+    def constraint(self, c):
+        return (self.expr(c.expression), 0 if c.equality_or_inequality == "inequality" else 1)
+
+
+def dot(u, v):
+    return sum(a * b for a, b in zip(u, v))
+
+
+def sub(u, v):
+    return [a - b for a, b in zip(u, v)]
+
+
+def add(u, v):
+    return [a + b for a, b in zip(u, v)]
+
+
+def scal(c, u):
+    return [c * a for a in u]
+
+
+def nrm2(u):
+    return dot(u, u)
+
+
+class S(object):
+    """an evaluated sample"""
+    def __init__(self, tr, val, blocks=None):
+        self.tr = tr
+        self.x, self.g, self.f = val.point(tr[0]), val.point(tr[1]), val.expr(tr[2])
+        self.gb = blocks or []
+
+
+# ------------------------------------------------------------------------------------------ reference conditions
+# Each entry: (condition name, rows, cols, diagonal?, value(p, a, b), sense, guard) with rows / cols in
+# {"points", "stat", "single"}; value = left-minus-right of "... <= 0" (sense 0) or "... = 0" (sense 1) as in
+# coq/Spec/Reference.v.  `diagonal` = the documented condition is also required for i = j (only the antisymmetry
+# of skew-symmetric operators: <x, Ax> = 0).  Pairs range over DISTINCT recorded samples (distinct triplets).
+def _convex(p, a, b):
+    return b.f - a.f + dot(b.g, sub(a.x, b.x))
+
+
+def _smooth_convex(p, a, b):
+    return b.f - a.f + dot(b.g, sub(a.x, b.x)) + Fraction(1, 2) / p["L"] * nrm2(sub(a.g, b.g))
+
+
+def _strong_monotone(p, a, b):
+    return p["mu"] * nrm2(sub(a.x, b.x)) - dot(sub(a.g, b.g), sub(a.x, b.x))
+
+
+def _lipschitz(p, a, b):
+    return nrm2(sub(a.g, b.g)) - p["L"] ** 2 * nrm2(sub(a.x, b.x))
+
+
+def _cocoercive(p, a, b):
+    return p["beta"] * nrm2(sub(a.g, b.g)) - dot(sub(a.g, b.g), sub(a.x, b.x))
+
+
+def _bounded_g(p, a, b):
+    return nrm2(a.g) - p["M"] ** 2
+
+
+def _ssc(p, a, b):
+    mu, L = p["mu"], p["L"]
+    d = sub(sub(a.x, b.x), scal(1 / L, sub(a.g, b.g)))
+    return (b.f - a.f + dot(b.g, sub(a.x, b.x)) + Fraction(1, 2) / L * nrm2(sub(a.g, b.g))
+            + mu / (2 * (1 - mu / L)) * nrm2(d))
+
+
+def _smooth(p, a, b):
+    L = p["L"]
+    return (b.f - a.f - L / 4 * nrm2(sub(a.x, b.x)) + Fraction(1, 2) * dot(add(a.g, b.g), sub(a.x, b.x))
+            + 1 / (4 * L) * nrm2(sub(a.g, b.g)))
+
+
+FINITE = lambda k: (lambda p: p[k] is not None)
+REF = {
+    "ConvexFunction": [("convexity", "points", "points", False, _convex, 0, None)],
+    "ConvexIndicatorFunction": [
+        ("value", "single", "points", False, lambda p, a, b: a.f, 1, None),
+        ("convexity", "points", "points", False, lambda p, a, b: dot(b.g, sub(a.x, b.x)), 0, None),
+        ("diameter", "points", "points", False, lambda p, a, b: nrm2(sub(a.x, b.x)) - p["D"] ** 2, 0, FINITE("D"))],
+    "ConvexLipschitzFunction": [
+        ("lipschitz_continuity", "single", "points", False, _bounded_g, 0, None),
+        ("convexity", "points", "points", False, _convex, 0, None)],
+    "ConvexQGFunction": [
+        ("qg_convexity", "stat", "points", False,
+         lambda p, a, b: b.f - a.f + dot(b.g, sub(a.x, b.x)) + Fraction(1, 2) / p["L"] * nrm2(b.g), 0, None),
+        ("convexity", "points", "points", False, _convex, 0, None)],
+    "ConvexSupportFunction": [
+        ("fenchel_value", "single", "points", False, lambda p, a, b: dot(a.g, a.x) - a.f, 1, None),
+        ("lipschitz_continuity", "single", "points", False, _bounded_g, 0, FINITE("M")),
+        ("convexity", "points", "points", False, lambda p, a, b: dot(b.x, sub(a.g, b.g)), 0, None)],
+    "RsiEbFunction": [
+        ("rsi", "stat", "points", False, _strong_monotone, 0, None),
+        ("eb", "stat", "points", False, _lipschitz, 0, None)],
+    "SmoothConvexFunction": [("smoothness_convexity", "points", "points", False, _smooth_convex, 0, None)],
+    "SmoothConvexLipschitzFunction": [
+        ("smoothness_convexity", "points", "points", False, _smooth_convex, 0, None),
+        ("lipschitz_continuity", "single", "points", False, _bounded_g, 0, None)],
+    "SmoothFunction": [("smoothness", "points", "points", False, _smooth, 0, None)],
+    "SmoothStronglyConvexFunction": [("smoothness_strong_convexity", "points", "points", False, _ssc, 0, None)],
+    "SmoothStronglyConvexQuadraticFunction": [
+        ("value", "single", "points", False,
+         lambda p, a, b: a.f - p["fs"] - Fraction(1, 2) * dot(sub(a.x, p["xs"]), a.g), 1, None),
+        ("symmetry", "points", "points", False,
+         lambda p, a, b: dot(sub(a.x, p["xs"]), b.g) - dot(sub(b.x, p["xs"]), a.g), 1, None)],
+    "StronglyConvexFunction": [
+        ("strong_convexity", "points", "points", False,
+         lambda p, a, b: b.f - a.f + dot(b.g, sub(a.x, b.x)) + p["mu"] / 2 * nrm2(sub(a.x, b.x)), 0, None)],
+    "CocoerciveOperator": [("cocoercivity", "points", "points", False, _cocoercive, 0, None)],
+    "CocoerciveStronglyMonotoneOperator": [
+        ("cocoercivity", "points", "points", False, _cocoercive, 0, None),
+        ("strong_monotonicity", "points", "points", False, _strong_monotone, 0, None)],
+    "LinearOperator": [],     # cross equalities and LMIs: see ref_cross / REF_LMI
+    "LipschitzOperator": [("lipschitz_continuity", "points", "points", False, _lipschitz, 0, None)],
+    "LipschitzStronglyMonotoneOperator": [
+        ("strong_monotonicity", "points", "points", False, _strong_monotone, 0, None),
+        ("lipschitz_continuity", "points", "points", False, _lipschitz, 0, None)],
+    "MonotoneOperator": [
+        ("monotonicity", "points", "points", False, lambda p, a, b: -dot(sub(a.g, b.g), sub(a.x, b.x)), 0, None)],
+    "NegativelyComonotoneOperator": [
+        ("negative_comonotonicity", "points", "points", False,
+         lambda p, a, b: -dot(sub(a.g, b.g), sub(a.x, b.x)) - p["rho"] * nrm2(sub(a.g, b.g)), 0, None)],
+    "NonexpansiveOperator": [
+        ("nonexpansiveness", "points", "points", False,
+         lambda p, a, b: nrm2(sub(a.g, b.g)) - nrm2(sub(a.x, b.x)), 0, None),
+        ("infimal_displacement_vector", "single", "points", False,
+         lambda p, a, b: nrm2(p["v"]) - dot(sub(a.x, a.g), p["v"]), 0, lambda p: p["v"] is not None)],
+    "SkewSymmetricLinearOperator": [
+        ("antisymmetric_linearity", "points", "points", True,
+         lambda p, a, b: dot(a.x, b.g) + dot(b.x, a.g), 1, None)],
+    "StronglyMonotoneOperator": [("strong_monotonicity", "points", "points", False, _strong_monotone, 0, None)],
+    "SymmetricLinearOperator": [
+        ("symmetric_linearity", "points", "points", False, lambda p, a, b: dot(a.x, b.g) - dot(b.x, a.g), 1, None)],
+    "BlockSmoothConvexFunction": [],   # per block, see ref_block
+}
+# class -> [(list, entry(p, a, b))] : the LMIs, in order
+REF_LMI = {
+    "SmoothStronglyConvexQuadraticFunction": [
+        ("points", lambda p, a, b: (p["L"] + p["mu"]) * dot(a.g, sub(b.x, p["xs"])) - dot(a.g, b.g)
+         - p["mu"] * p["L"] * dot(sub(a.x, p["xs"]), sub(b.x, p["xs"])))],
+    "LinearOperator": [("points", lambda p, a, b: p["L"] ** 2 * dot(a.x, b.x) - dot(a.g, b.g)),
+                       ("tpoints", lambda p, a, b: p["L"] ** 2 * dot(a.x, b.x) - dot(a.g, b.g))],
+    "SkewSymmetricLinearOperator": [("points", lambda p, a, b: p["L"] ** 2 * dot(a.x, b.x) - dot(a.g, b.g))],
+    "SymmetricLinearOperator": [
+        ("points", lambda p, a, b: p["L"] * dot(a.g, b.x) - dot(a.g, b.g) - p["mu"] * p["L"] * dot(a.x, b.x)
+         + p["mu"] * dot(a.x, b.g))],
+}
+
+
+def ref_params(func, val):
+    p = {}
+    for k in ("L", "mu", "M", "D", "beta", "rho"):
+        if hasattr(func, k) and not isinstance(getattr(func, k), list):
+            v = getattr(func, k)
+            p[k] = None if v == K.INF else K.T.to_fraction(v)
+    v = getattr(func, "v", None)
+    p["v"] = None if v is None else val.point(v)
+    if func.list_of_stationary_points:
+        xs, _, fs = func.list_of_stationary_points[0]
+        p["xs"], p["fs"] = val.point(xs), val.expr(fs)
+    return p
+
+
+def check_reference(name, func, rng, n_val=2):
+    """C04 on the implementation: under random exact-rational valuations, the constraints found in
+    tables_of_constraints / list_of_class_constraints / list_of_class_psd must be, pair by pair, the reference
+    conditions over ALL required pairs of recorded samples.  Returns a list of discrepancy dicts
+    (kind, condition, i, j, ...).  Call after func.set_class_constraints()."""
+    from PEPit.constraint import Constraint
+    out = []
+    partition = getattr(func, "partition", None)
+    for _ in range(n_val):
+        val = Valuation(rng)
+        p = ref_params(func, val)
+
+        def samples(l):
+            res = []
+            for tr in l:
+                blocks = None
+                if partition is not None:
+                    blocks = [val.point(partition.get_block(tr[1], k)) for k in range(partition.get_nb_blocks())]
+                res.append(S(tr, val, blocks))
+            return res
+        lists = {"points": samples(func.list_of_points), "stat": samples(func.list_of_stationary_points),
+                 "tpoints": samples(func.T.list_of_points) if hasattr(func, "T") else []}
+        conds = list(REF[name])
+        if name == "BlockSmoothConvexFunction":
+            for k in range(partition.get_nb_blocks()):
+                Lk = K.T.to_fraction(func.L[k])
+                conds.append(("smoothness_convexity_block_%d" % k, "points", "points", False,
+                              (lambda k, Lk: lambda p, a, b: b.f - a.f + dot(b.g, sub(a.x, b.x))
+                               + Fraction(1, 2) / Lk * nrm2(sub(a.gb[k], b.gb[k])))(k, Lk), 0, None))
+        for cname, rows, cols, diag, fval, sense, guard in conds:
+            if guard is not None and not guard(p):
+                if cname in func.tables_of_constraints and not getattr(func, "_verif_resolved", False):
+                    out.append(dict(kind="condition-generated-under-false-guard", condition=cname))
+                continue
+            L2 = lists[cols]
+            L1 = [None] if rows == "single" else lists[rows]
+            if not L1 or (rows != "single" and not L1):
+                continue
+            df = func.tables_of_constraints.get(cname)
+            cells = df.values if df is not None else None
+            if cells is None:
+                if L1 and (rows == "single" or any(a.tr is not b.tr for a in L1 for b in L2)):
+                    out.append(dict(kind="no-table-for-condition", condition=cname))
+                continue
+            if cells.shape != (len(L1), len(L2)):
+                out.append(dict(kind="table-shape", condition=cname, shape=list(cells.shape),
+                                expected=[len(L1), len(L2)]))
+                continue
+            gen = {}
+            for i in range(len(L1)):
+                for j in range(len(L2)):
+                    if isinstance(cells[i][j], Constraint):
+                        gen[(i, j)] = val.constraint(cells[i][j])
+            for i, a in enumerate(L1):
+                for j, b in enumerate(L2):
+                    aa = b if rows == "single" else a
+                    r = fval(p, aa, b)
+                    same = (rows != "single") and (aa.tr is b.tr)
+                    if (i, j) in gen:
+                        gv, gs = gen[(i, j)]
+                        if gs != sense or not (gv == r or (sense == 1 and gv == -r)):
+                            out.append(dict(kind="generated-differs-from-reference", condition=cname, i=i, j=j,
+                                            generated=str(gv), reference=str(r), sense=[gs, sense]))
+                        continue
+                    if same and not diag:
+                        continue
+                    # not generated at (i, j): acceptable only if the mirrored constraint states the same condition
+                    ok = False
+                    if rows == cols and (j, i) in gen:
+                        gv, gs = gen[(j, i)]
+                        ok = gs == sense and (gv == r or (sense == 1 and gv == -r))
+                    if not ok:
+                        out.append(dict(kind="required-pair-not-covered", condition=cname, i=i, j=j,
+                                        diagonal=bool(same), same_x_g=bool(aa.tr[0] is b.tr[0] and aa.tr[1] is b.tr[1]),
+                                        reference=str(r)))
+        # LinearOperator: X^T V = Y^T U for every (sample of the operator, sample of its transpose)
+        if name == "LinearOperator":
+            want = sorted(abs(dot(a.x, b.g) - dot(a.g, b.x)) for a in lists["points"] for b in lists["tpoints"])
+            got = sorted(abs(val.constraint(c)[0]) for c in func.list_of_class_constraints)
+            senses = set(c.equality_or_inequality for c in func.list_of_class_constraints)
+            if want != got or senses - {"equality"}:
+                out.append(dict(kind="cross-equalities-differ", condition="X^T V = Y^T U",
+                                generated=[str(v) for v in got], reference=[str(v) for v in want]))
+        # LMIs
+        lm = REF_LMI.get(name, [])
+        if len(func.list_of_class_psd) != len(lm):
+            out.append(dict(kind="lmi-count", generated=len(func.list_of_class_psd), reference=len(lm)))
+        else:
+            for k, (lname, entry) in enumerate(lm):
+                M = func.list_of_class_psd[k].matrix_of_expressions
+                Ls = lists[lname]
+                if tuple(M.shape) != (len(Ls), len(Ls)):
+                    out.append(dict(kind="lmi-shape", lmi=k, shape=list(M.shape), expected=len(Ls)))
+                    continue
+                for i, a in enumerate(Ls):
+                    for j, b in enumerate(Ls):
+                        if val.expr(M[i, j]) != entry(p, a, b):
+                            out.append(dict(kind="lmi-entry-differs-from-reference", lmi=k, i=i, j=j,
+                                            generated=str(val.expr(M[i, j])), reference=str(entry(p, a, b))))
+        if out:
+            break
+    return out
+
+
+def known_trigger(name, d):
+    """is this discrepancy one of the two documented triggers?  (F-C04b: diagonal of the skew-symmetric class;
+    F-C04c: BlockSmooth triplets holding the same Point objects x and g)"""
+    if d.get("kind") == "required-pair-not-covered":
+        if name == "SkewSymmetricLinearOperator" and d.get("diagonal"):
+            return "F-C04b"
+        if name == "BlockSmoothConvexFunction" and d.get("same_x_g") and not d.get("diagonal"):
+            return "F-C04c"
+    return None
+
+
+def check_tables(name, func):
+    """C17 on the implementation, after py_genout tagged the p-th class constraint with dual value p:
+    every table has one row per sample of its first list / one column per recorded sample, carries the point
+    names as labels; cell (i, j) of the dual table is the tag of THE constraint named for that condition and
+    pair, 0 iff there is none; every named class constraint sits in exactly one cell; names carry function id
+    and condition.  Returns discrepancy dicts."""
+    from PEPit.constraint import Constraint
+    out = []
+    fid = K.function_id(func)
+    cons = func.list_of_class_constraints
+    by_name = {}
+    for k, c in enumerate(cons):
+        by_name.setdefault(c.get_name(), []).append(k)
+    duals = func.get_class_constraints_duals()
+    if list(duals.keys()) != list(func.tables_of_constraints.keys()):
+        out.append(dict(kind="dual-tables-keys", got=list(duals.keys()), want=list(func.tables_of_constraints.keys())))
+        return out
+    raw = getattr(func, "_verif_raw", None)
+    npts = len(func.list_of_points) if raw is None else None
+    seen = {}
+    for key, df in func.tables_of_constraints.items():
+        dd = duals[key]
+        cells = df.values
+        if dd.values.shape != cells.shape or list(dd.index) != list(df.index) or list(dd.columns) != list(df.columns):
+            out.append(dict(kind="dual-table-shape-or-labels", condition=key))
+            continue
+        if raw is None:
+            nstat = len(func.list_of_stationary_points)
+            if cells.shape[1] != npts or cells.shape[0] not in (1, npts, nstat):
+                out.append(dict(kind="table-shape", condition=key, shape=list(cells.shape), n_points=npts,
+                                n_stationary=nstat))
+        if str(df.columns.name) != "IC_" + fid:
+            out.append(dict(kind="table-title", condition=key, got=str(df.columns.name)))
+        single = (list(df.index) == [0])
+        for i in range(cells.shape[0]):
+            for j in range(cells.shape[1]):
+                if single:
+                    nm = "IC_{}_{}({})".format(fid, key, df.columns[j])
+                else:
+                    nm = "IC_{}_{}({}, {})".format(fid, key, df.index[i], df.columns[j])
+                el = cells[i][j]
+                if isinstance(el, Constraint):
+                    pos = next((k for k, c in enumerate(cons) if c is el), None)
+                    if pos is None:
+                        out.append(dict(kind="cell-object-not-a-class-constraint", condition=key, i=i, j=j))
+                        continue
+                    if el.get_name() != nm:
+                        out.append(dict(kind="cell-holds-constraint-of-another-pair", condition=key, i=i, j=j,
+                                        name=el.get_name(), expected=nm))
+                    if K.T.to_fraction(dd.values[i][j]) != pos:
+                        out.append(dict(kind="dual-not-the-multiplier-of-the-cell-constraint", condition=key, i=i, j=j,
+                                        got=str(dd.values[i][j]), want=pos))
+                    seen[pos] = seen.get(pos, 0) + 1
+                else:
+                    if K.T.to_fraction(dd.values[i][j]) != 0:
+                        out.append(dict(kind="dual-nonzero-without-constraint", condition=key, i=i, j=j))
+                    # labels unique: a constraint with this very name must then not exist
+                    if nm in by_name and list(df.index).count(df.index[i]) == 1 \
+                            and list(df.columns).count(df.columns[j]) == 1:
+                        out.append(dict(kind="constraint-exists-but-cell-is-zero", condition=key, i=i, j=j, name=nm))
+    for k, c in enumerate(cons):
+        if c.get_name() is None:
+            out.append(dict(kind="unnamed-class-constraint", position=k))
+        elif seen.get(k, 0) != 1:
+            out.append(dict(kind="class-constraint-in-%d-cells" % seen.get(k, 0), position=k, name=c.get_name()))
+        elif not c.get_name().startswith("IC_" + fid + "_"):
+            out.append(dict(kind="name-without-function-id", position=k, name=c.get_name()))
+    return out
+
+
+def known_trigger_c17(name, d):
+    """F-C17b: LinearOperator's cross equalities are unnamed and untabulated"""
+    if name == "LinearOperator" and d.get("kind") == "unnamed-class-constraint":
+        return "F-C17b"
+    return None
